@@ -304,15 +304,38 @@ Print Assumptions C18_run_verb_spec.
 Theorem C18_binding_then_download_from_cache : forall cfg tg b r w,
   applicable tg r = Some w -> body_ok b r ->
   let r' := fst (parse_response_body tg b r) in
-  r_cached r' = true /\ (c_save cfg = true -> handle_download cfg b r' = b_write b).
+  r_cached r' = true /\
+  (c_save cfg = true -> handle_download cfg b r' = match b_write b with Some e => Some e | None => b_close b end).
 Proof. exact binding_then_download_from_cache. Qed.
 Print Assumptions C18_binding_then_download_from_cache.
 
 Theorem C18_download_streams_when_unread : forall cfg b r,
   c_save cfg = true -> r_present r = true -> r_cached r = false ->
-  handle_download cfg b r = match b_read b with Some e => Some e | None => b_write b end.
+  handle_download cfg b r =
+  match b_read b with Some e => Some e | None => match b_write b with Some e => Some e | None => b_close b end end.
 Proof. exact download_streams_when_unread. Qed.
 Print Assumptions C18_download_streams_when_unread.
+
+(* closing the output: a failed copy keeps its error for EVERY close outcome; a failed close fails
+   an otherwise good download *)
+Theorem C18_copy_error_kept_for_every_close : forall cfg b r e c,
+  c_save cfg = true -> r_present r = true -> copy_result b r = Some e ->
+  handle_download cfg (with_close c b) r = Some e.
+Proof. exact copy_error_kept_for_every_close. Qed.
+Print Assumptions C18_copy_error_kept_for_every_close.
+
+Theorem C18_close_error_fails_download : forall cfg b r c,
+  c_save cfg = true -> r_present r = true -> copy_result b r = None ->
+  handle_download cfg (with_close c b) r = c.
+Proof. exact close_error_fails_download. Qed.
+Print Assumptions C18_close_error_fails_download.
+
+Theorem C18_close_overwrite_loses_copy_error :
+  let cfg := mkCfg (mkTargets false false false) false None None None false true in
+  let b := mkBody (Some 7) None None None None None None in
+  let r := mkResp true 200 None None false false ENone in
+  handle_download_close_overwrites cfg b r = None /\ handle_download cfg b r = Some 7.
+Proof. exact close_overwrite_loses_copy_error. Qed.
 
 (* ---- a failing body read surfaces for EVERY body transformer (installed or not, failing or not) ---- *)
 Theorem C18_read_error_kept_for_every_transformer : forall b r e tf,
@@ -341,7 +364,7 @@ Print Assumptions C18_auto_read_error_is_seen.
 
 (* the refactoring that runs the transformer regardless of the read error loses it (seeded b-m2) *)
 Theorem C18_unguarded_transformer_loses_read_error :
-  let b := mkBody (Some 7) None None None None None in
+  let b := mkBody (Some 7) None None None None None None in
   let r := mkResp true 200 None None false false ENone in
   to_bytes_unguarded b r = (set_cached true r, None) /\ to_bytes b r = (set_cached true (set_err (Some 7) r), Some 7).
 Proof. exact unguarded_transformer_loses_read_error. Qed.
@@ -427,12 +450,12 @@ Proof. exact do_pinned_nil_deref. Qed.
 Example C18_nonvacuous :
   (* 200 + JSON + success target: bound; error hook silent *)
   run Fixed (mkProg ESend (mkCfg (mkTargets true true true) true (Some (mkHook None None)) None None false false)
-    [mkAttempt [None; None] None [WPass] None (TResp 200 None (mkBody None None None None None None)) (TFail 9) [Mw None None] [Mw None None] [] false false])
+    [mkAttempt [None; None] None [WPass] None (TResp 200 None (mkBody None None None None None None None)) (TFail 9) [Mw None None] [Mw None None] [] false false])
   = Returned (Some (mkResp true 200 None None true true ENone)) None
       [[EvUd 0; EvUd 1; EvWIn 0; EvSend; EvCli 0; EvWOut 0; EvReq 0]] 0 /\
   (* 500 + ill-formed body + request-level error target: unmarshal error surfaces, hook runs once *)
   run Fixed (mkProg ESend (mkCfg (mkTargets true true true) true (Some (mkHook None None)) None None false false)
-    [mkAttempt [] None [] None (TResp 500 None (mkBody None None None (Some (-1)) None None)) (TFail 9) [] [] [] false false])
+    [mkAttempt [] None [] None (TResp 500 None (mkBody None None None (Some (-1)) None None None)) (TFail 9) [] [] [] false false])
   = Returned (Some (mkResp true 500 None (Some (-1)) true false ENone)) (Some (-1)) [[EvSend]] 1 /\
   (* a wrapper returning (nil, err) under retry: the repaired loop retries and reports the error *)
   run Fixed (mkProg ESend retry_cfg [nil_wrapper_attempt; nil_wrapper_attempt]) =
